@@ -9,7 +9,7 @@ from ..astutil import up, walk_local, stores, chain, calls, const, root_name, en
 from ..rules import where
 from ..loader import AnalysisError
 from . import common
-from .c10 import check_ctor
+from .c10 import check_inputs as check_ctor
 
 T_, R_ = 't', 'r'
 EXPLANATION = (
